@@ -224,11 +224,30 @@ tround_tdur(struct dt_t_s t, struct dt_dtdur_s dur, bool nextp)
 }
 
 static struct dt_d_s
-dround_ddur_cocl(struct dt_d_s d, struct dt_ddur_s dur, bool UNUSED(nextp))
+dround_ddur_cocl(struct dt_d_s d, struct dt_ddur_s dur, bool nextp)
 {
 /* we won't be using next here because next/prev adjustments should have
  * been made in dround already */
 	signed int sdur = dur.dv;
+
+	switch (dur.durtyp) {
+	case DT_DURMO:
+	case DT_DURQU:
+	case DT_DURYR:
+		if (d.typ != DT_YMD) {
+			/* multiples of months and years live in the
+			 * ymd calendar, go there and come back */
+			struct dt_d_s tmp = dt_dconv(DT_YMD, d);
+
+			if (tmp.typ == DT_YMD) {
+				tmp = dround_ddur_cocl(tmp, dur, nextp);
+				return dt_dconv(d.typ, tmp);
+			}
+		}
+		break;
+	default:
+		break;
+	}
 
 	switch (dur.durtyp) {
 	case DT_DURD:
@@ -309,6 +328,26 @@ dround_ddur_cocl(struct dt_d_s d, struct dt_ddur_s dur, bool UNUSED(nextp))
 static struct dt_d_s
 dround_ddur(struct dt_d_s d, struct dt_ddur_s dur, bool nextp)
 {
+	switch (dur.durtyp) {
+	case DT_DURD:
+	case DT_DURMO:
+	case DT_DURQU:
+	case DT_DURYMD:
+		if (d.typ != DT_YMD) {
+			/* day-of-month and month targets are ymd notions,
+			 * go there and come back instead of ignoring them */
+			struct dt_d_s tmp = dt_dconv(DT_YMD, d);
+
+			if (tmp.typ == DT_YMD) {
+				tmp = dround_ddur(tmp, dur, nextp);
+				return dt_dconv(d.typ, tmp);
+			}
+		}
+		break;
+	default:
+		break;
+	}
+
 	switch (dur.durtyp) {
 		unsigned int tgt;
 		bool forw;
